@@ -1,3 +1,229 @@
-/-! C17 model (stub) -/
+import OtelVerif.Model.Payload
+/-!
+# C17 — batch processor (processor/batchprocessor)
+
+* `splitLogs` (= `splitTraces`, same code modulo renaming) and `splitMetrics`, closure by closure, on
+  `Model/Payload` trees: `RemoveIf` passes with the shared counter `totalCopied…` as the closure state.
+  The model is of the repaired code (`fix:` commit in /tmp/wt-C17): the split-off resource / scope keeps
+  its schema URL and the split-off metric keeps its metadata.
+* `Batch.add` / `Batch.split` (`batchLogs`, `batchTraces`, `batchMetrics`).
+* the shard loop (`startLoop` / `processItem` / `sendItems` / timer) as a labelled transition system in
+  virtual time, and the metadata sharder (`multiShardBatcher.consume`).
+-/
 namespace OtelVerif.C17
+open OtelVerif.Payload
+
+/-! ## splitLogs / splitTraces -/
+
+/-- innermost closure: `if total == size {return false}; move; total++; return true` -/
+def splitItems (size : Nat) (total : Nat) (items : List Item) : Walk Item Nat :=
+  walk (fun t => t == size) (fun t _ => some (t + 1)) (fun t c => (none, some c, t)) total items
+
+/-- scope that does not fit: `destIll := AppendEmpty(); Scope().CopyTo; SetSchemaUrl` (repaired), inner `RemoveIf`,
+`return false` (the source scope always stays) -/
+def cutScope (size : Nat) (t : Nat) (s : Scope) : Option Scope × Option Scope × Nat :=
+  let w := splitItems size t s.items
+  (some { smeta := s.smeta, items := w.dest }, some { s with items := w.rem }, w.st)
+
+def fitsScope (size : Nat) (t : Nat) (s : Scope) : Option Nat :=
+  if size ≥ s.items.length + t then some (t + s.items.length) else none
+
+def splitScopes (size : Nat) (total : Nat) (scopes : List Scope) : Walk Scope Nat :=
+  walk (fun t => t == size) (fitsScope size) (cutScope size) total scopes
+
+/-- resource that does not fit: `destRl := AppendEmpty(); Resource().CopyTo; SetSchemaUrl` (repaired), inner
+`RemoveIf`, `return srcRl.ScopeLogs().Len() == 0` -/
+def cutRes (size : Nat) (t : Nat) (r : Res) : Option Res × Option Res × Nat :=
+  let w := splitScopes size t r.scopes
+  (some { rmeta := r.rmeta, scopes := w.dest },
+   if w.rem.length == 0 then none else some { r with scopes := w.rem }, w.st)
+
+def fitsRes (size : Nat) (t : Nat) (r : Res) : Option Nat :=
+  if t + r.count ≤ size then some (t + r.count) else none
+
+def splitRes (size : Nat) (total : Nat) (p : List Res) : Walk Res Nat :=
+  walk (fun t => t == size) (fitsRes size) (cutRes size) total p
+
+/-- `splitLogs(size, src)`: `(returned value, src afterwards)`.  When `src` has at most `size` records the
+function returns `src` itself (the same object). -/
+def splitLogs (size : Nat) (src : List Res) : List Res × List Res :=
+  if count src ≤ size then (src, src)
+  else
+    let w := splitRes size 0 src
+    (w.dest, w.rem)
+
+/-! ## splitMetrics -/
+
+/-- `split*DataPoints(src, dst, size)`: `i := 0; RemoveIf(if i < size {move; i++; return true}; return false)` -/
+def splitPoints (size : Nat) (pts : List Item) : Walk Item Nat :=
+  walk (fun _ => false) (fun i _ => if i < size then some (i + 1) else none) (fun i c => (none, some c, i)) 0 pts
+
+/-- identity of the split-off metric: name, description, unit, metadata (repaired), type, temporality, monotonicity -/
+def fragMeta (m : MMeta) : MMeta := m
+
+/-- metric that does not fit: `splitMetric(srcMetric, dest.AppendEmpty(), size-total)` returns `(size-total, false)` -/
+def cutMetric (size : Nat) (t : Nat) (m : Metric) : Option Metric × Option Metric × Nat :=
+  let w := splitPoints (size - t) m.points
+  (some { mmeta := fragMeta m.mmeta, points := w.dest }, some { m with points := w.rem }, t + (size - t))
+
+def fitsMetric (size : Nat) (t : Nat) (m : Metric) : Option Nat :=
+  if m.count + t ≤ size then some (t + m.count) else none
+
+def splitMetricsIn (size : Nat) (total : Nat) (ms : List Metric) : Walk Metric Nat :=
+  walk (fun t => t == size) (fitsMetric size) (cutMetric size) total ms
+
+def cutMScope (size : Nat) (t : Nat) (s : MScope) : Option MScope × Option MScope × Nat :=
+  let w := splitMetricsIn size t s.metrics
+  (some { smeta := s.smeta, metrics := w.dest }, some { s with metrics := w.rem }, w.st)
+
+def fitsMScope (size : Nat) (t : Nat) (s : MScope) : Option Nat :=
+  if s.count + t ≤ size then some (t + s.count) else none
+
+def splitMScopes (size : Nat) (total : Nat) (scopes : List MScope) : Walk MScope Nat :=
+  walk (fun t => t == size) (fitsMScope size) (cutMScope size) total scopes
+
+def cutMRes (size : Nat) (t : Nat) (r : MRes) : Option MRes × Option MRes × Nat :=
+  let w := splitMScopes size t r.scopes
+  (some { rmeta := r.rmeta, scopes := w.dest },
+   if w.rem.length == 0 then none else some { r with scopes := w.rem }, w.st)
+
+def fitsMRes (size : Nat) (t : Nat) (r : MRes) : Option Nat :=
+  if t + r.count ≤ size then some (t + r.count) else none
+
+def splitMRes (size : Nat) (total : Nat) (p : List MRes) : Walk MRes Nat :=
+  walk (fun t => t == size) (fitsMRes size) (cutMRes size) total p
+
+def splitMetrics (size : Nat) (src : List MRes) : List MRes × List MRes :=
+  if mcount src ≤ size then (src, src)
+  else
+    let w := splitMRes size 0 src
+    (w.dest, w.rem)
+
+
+/-! ## batch, shard loop, sharder (batch_processor.go) — generic in the signal -/
+
+structure BatchOps (P : Type) where
+  count : P → Nat
+  empty : P
+  append : P → P → P
+  split : Nat → P → P × P
+
+def logsBatch : BatchOps (List Res) := { count := count, empty := [], append := (· ++ ·), split := splitLogs }
+def metricsBatch : BatchOps (List MRes) := { count := mcount, empty := [], append := (· ++ ·), split := splitMetrics }
+
+/-- validated configuration: `max = 0 ∨ sbs ≤ max`; times in microseconds of virtual time -/
+structure Cfg where
+  sbs : Nat
+  max : Nat
+  timeout : Nat
+  /-- number of configured metadata keys (0 = single shard) -/
+  nkeys : Nat := 0
+  /-- metadata_cardinality_limit (0 = unlimited) -/
+  limit : Nat := 0
+deriving Repr
+
+/-- `startLoop` creates the timer only `if timeout != 0 && sendBatchSize != 0` -/
+def hasTimer (c : Cfg) : Bool := c.timeout != 0 && c.sbs != 0
+
+/-- metadata values of the configured keys (sorted lower-cased keys), each value abstracted to a number -/
+abbrev Key := List (List Nat)
+
+structure Shard (P : Type) where
+  key : Key
+  data : P
+  cnt : Nat
+  /-- when the timer fires next (meaningful iff `hasTimer`) -/
+  deadline : Nat
+
+structure Emit (P : Type) where
+  key : Key
+  t : Nat
+  p : P
+
+/-- `batch.add` -/
+def Shard.add {P : Type} (o : BatchOps P) (s : Shard P) (p : P) : Shard P :=
+  if o.count p == 0 then s else { s with data := o.append s.data p, cnt := s.cnt + o.count p }
+
+/-- `sendItems`: `batch.split(sendBatchMaxSize)` then export (downstream accepts) -/
+def Shard.send {P : Type} (o : BatchOps P) (c : Cfg) (now : Nat) (s : Shard P) : Shard P × Emit P :=
+  if c.max > 0 && s.cnt > c.max then
+    let r := o.split c.max s.data
+    ({ s with data := r.2, cnt := s.cnt - c.max }, ⟨s.key, now, r.1⟩)
+  else ({ s with data := o.empty, cnt := 0 }, ⟨s.key, now, s.data⟩)
+
+/-- `for itemCount > 0 && (!hasTimer || itemCount >= sendBatchSize) { sendItems }`; every send lowers `cnt`,
+so `cnt + 1` rounds suffice -/
+def sendLoop {P : Type} (o : BatchOps P) (c : Cfg) (now : Nat) : Nat → Shard P → List (Emit P) → Shard P × List (Emit P)
+  | 0, s, acc => (s, acc)
+  | fuel + 1, s, acc =>
+    if s.cnt > 0 && (!hasTimer c || s.cnt ≥ c.sbs) then
+      let r := s.send o c now
+      sendLoop o c now fuel r.1 (acc ++ [r.2])
+    else (s, acc)
+
+/-- `processItem`: add, send while due, `if sent { stopTimer; resetTimer }` -/
+def Shard.process {P : Type} (o : BatchOps P) (c : Cfg) (now : Nat) (s : Shard P) (p : P) : Shard P × List (Emit P) :=
+  let s := s.add o p
+  let r := sendLoop o c now (s.cnt + 1) s []
+  if r.2.isEmpty then r else ({ r.1 with deadline := now + c.timeout }, r.2)
+
+/-- `case <-timerCh: if itemCount > 0 { sendItems }; resetTimer` at time `s.deadline` -/
+def Shard.tick {P : Type} (o : BatchOps P) (c : Cfg) (s : Shard P) : Shard P × List (Emit P) :=
+  let now := s.deadline
+  if s.cnt > 0 then
+    let r := s.send o c now
+    ({ r.1 with deadline := now + c.timeout }, [r.2])
+  else ({ s with deadline := now + c.timeout }, [])
+
+/-- shutdown after the channel was drained: `if itemCount > 0 { sendItems }` (one send) -/
+def Shard.shutdown {P : Type} (o : BatchOps P) (c : Cfg) (now : Nat) (s : Shard P) : Shard P × List (Emit P) :=
+  if s.cnt > 0 then
+    let r := s.send o c now
+    (r.1, [r.2])
+  else (s, [])
+
+structure Proc (P : Type) where
+  shards : List (Shard P)
+  now : Nat := 0
+
+def Proc.init {P : Type} (o : BatchOps P) (c : Cfg) : Proc P :=
+  { shards := if c.nkeys == 0 then [{ key := [], data := o.empty, cnt := 0, deadline := c.timeout }] else [] }
+
+def replaceShard {P : Type} (s : Shard P) : List (Shard P) → List (Shard P)
+  | [] => []
+  | x :: xs => if x.key = s.key then s :: xs else x :: replaceShard s xs
+
+/-- `consume`: look the shard up by its metadata values, create it unless the cardinality limit is reached -/
+def Proc.arrive {P : Type} (o : BatchOps P) (c : Cfg) (pr : Proc P) (key : Key) (p : P) : Option (Proc P × List (Emit P)) :=
+  match pr.shards.find? (fun s => s.key = key) with
+  | some s =>
+    let r := s.process o c pr.now p
+    some ({ pr with shards := replaceShard r.1 pr.shards }, r.2)
+  | none =>
+    if c.limit != 0 && pr.shards.length ≥ c.limit then none
+    else
+      let s : Shard P := { key := key, data := o.empty, cnt := 0, deadline := pr.now + c.timeout }
+      let r := s.process o c pr.now p
+      some ({ pr with shards := pr.shards ++ [r.1] }, r.2)
+
+/-- let virtual time pass: every timer that comes due fires at its deadline -/
+def Proc.advance {P : Type} (o : BatchOps P) (c : Cfg) (dt : Nat) (pr : Proc P) : Proc P × List (Emit P) :=
+  let target := pr.now + dt
+  if !hasTimer c then ({ pr with now := target }, [])
+  else
+    let rec go : Nat → List (Shard P) → List (Emit P) → List (Shard P) × List (Emit P)
+      | 0, ss, acc => (ss, acc)
+      | fuel + 1, ss, acc =>
+        match ss.find? (fun s => s.deadline ≤ target) with
+        | none => (ss, acc)
+        | some s =>
+          let r := s.tick o c
+          go fuel (replaceShard r.1 ss) (acc ++ r.2)
+    let r := go ((dt / c.timeout + 2) * (pr.shards.length + 1)) pr.shards []
+    ({ shards := r.1, now := target }, r.2)
+
+def Proc.shutdown {P : Type} (o : BatchOps P) (c : Cfg) (pr : Proc P) : Proc P × List (Emit P) :=
+  let rs := pr.shards.map (fun s => s.shutdown o c pr.now)
+  ({ pr with shards := rs.map (·.1) }, rs.flatMap (·.2))
+
 end OtelVerif.C17
